@@ -241,7 +241,10 @@ pub fn run_into(report: &mut Report, prop: &str, tier: &str, share: f64) {
             .push(format!("hook-coverage audit: synchronisation primitive outside the wrappers (invisible to the scheduler): {h}"));
     }
     let stages = stages(prop, tier);
-    let cap = wall_cap(tier, stages.len() + if prop == "C14" || prop == "C08" { 1 } else { 0 }).mul_f64(share);
+    let nst = stages.len() + if prop == "C14" || prop == "C08" { 1 } else { 0 };
+    let cap = wall_cap(tier, nst).mul_f64(share);
+    let total = wall_cap(tier, 1).mul_f64(share);
+    let t0 = std::time::Instant::now();
     let threads = crate::seq_checks::threads();
     let mut tot_exec = 0u64;
     let mut tot_steps = 0u64;
@@ -256,7 +259,7 @@ pub fn run_into(report: &mut Report, prop: &str, tier: &str, share: f64) {
         let cfg = ExploreCfg {
             bound: st.bound,
             exec: st.exec,
-            wall_cap: cap,
+            wall_cap: total.saturating_sub(t0.elapsed()).max(cap.mul_f64(0.5)),
             threads,
             want_c14: st.want_c14,
         };
